@@ -67,6 +67,31 @@ theorem Inv3.step_a1 (I : Inv1 c s) (J : Inv2 c s) (K : Inv3 c s) (X : Inv3X s) 
   case rLPub id0 cid p k0 hpc hown hfree hst =>
     have hc3 : p < (s.l k0).cells.length := Q.stAt_some_lt _ _ _ hst
     clear l4; p_close
+  case gTakeTask id0 k hpc =>
+    clear l4
+    dsimp only at hl ⊢
+    by_cases hid : id = id0
+    · subst hid
+      have hi : s.g.cells.length = i := by simpa [upd] using hl
+      subst hi
+      have := Q.take_new s.g (.task id)
+      exact ⟨this.1, by rw [this.2]; simp⟩
+    · have hl' : s.loc id = .gq i := by simpa [upd, hid] using hl
+      obtain ⟨h1, h2⟩ := a1 id i hl'
+      have := Q.take_old s.g (.task id0) _ i h1
+      exact ⟨this.1, by rw [this.2]; exact h2⟩
+  case gTakeStop k hpc =>
+    clear l4
+    dsimp only at hl ⊢
+    obtain ⟨h1, h2⟩ := a1 id i hl
+    have := Q.take_old s.g .stop _ i h1
+    exact ⟨this.1, by rw [this.2]; exact h2⟩
+  case gTakeWakeup k hpc =>
+    clear l4
+    dsimp only at hl ⊢
+    obtain ⟨h1, h2⟩ := a1 id i hl
+    have := Q.take_old s.g .wakeup _ i h1
+    exact ⟨this.1, by rw [this.2]; exact h2⟩
   all_goals (clear l4; try p_close)
   all_goals (trace_state; sorry)
 
@@ -116,6 +141,25 @@ theorem Inv3.step_a2 (I : Inv1 c s) (J : Inv2 c s) (K : Inv3 c s) (X : Inv3X s) 
   case rLPub id0 cid p k0 hpc hown hfree hst =>
     have hc3 : p < (s.l k0).cells.length := Q.stAt_some_lt _ _ _ hst
     clear l4; p_close
+  case rLSt id0 cid p k0 hpc hown hp =>
+    clear l4
+    dsimp only at hl ⊢
+    by_cases hid : id = cid
+    · subst hid
+      have hl2 : Loc.lq k0 p = Loc.lq k i := by simpa [upd] using hl
+      injection hl2 with hk hi
+      subst hk; subst hi
+      have := Q.take_new (s.l k0) (.task id)
+      simp only [upd, if_true]
+      rw [hp]; exact ⟨this.1, by rw [this.2]; simp⟩
+    · have hl' : s.loc id = .lq k i := by simpa [upd, hid] using hl
+      obtain ⟨h1, h2⟩ := a2 id k i hl'
+      by_cases hk : k = k0
+      · subst hk
+        simp only [upd, if_true]
+        have := Q.take_old (s.l k) (.task cid) _ i h1
+        exact ⟨this.1, by rw [this.2]; exact h2⟩
+      · simp only [upd, hk, if_false]; exact ⟨h1, h2⟩
   all_goals (clear l4; try p_close)
   all_goals (trace_state; sorry)
 
